@@ -246,6 +246,26 @@ func RunC15(r *sim.Run) {
 				return
 			}
 		}
+		// whatever a cut stream's client has received is what the upstream sent: a
+		// prefix of its body, nothing appended by the gateway (C04)
+		if c.kind == "stream" && c.q.Status == 200 {
+			r.Checked("cut_stream_relays_only_upstream_bytes")
+			full := strings.Repeat(string(piece), 5)
+			if !strings.HasPrefix(full, string(c.q.RespBody)) {
+				extra := string(c.q.RespBody)
+				for i := 0; i < len(extra) && i < len(full); i++ {
+					if extra[i] != full[i] {
+						extra = extra[i:]
+						break
+					}
+				}
+				if len(c.q.RespBody) > len(full) && strings.HasPrefix(string(c.q.RespBody), full) {
+					extra = string(c.q.RespBody[len(full):])
+				}
+				r.Violate("cut_stream_carries_bytes_the_upstream_never_sent", removal, "%s: request %s was streaming a response when its endpoint was removed; its client received %d bytes that are not a prefix of the upstream's body, beginning with %q", removal, c.q.ID, len(c.q.RespBody), trunc([]byte(extra), 120))
+				return
+			}
+		}
 		if c.kind == "stream" && c.q.ReadErr == "" && len(c.q.RespBody) == 5*len(piece) {
 			r.Violate("inflight_request_completed_normally", removal, "request %s streamed to the end although its endpoint was removed", c.q.ID)
 			return
